@@ -38,11 +38,11 @@ PROPS = {
         'Theorems quantify over all byte strings, default fields and oracles. The correspondence check ties the model to /repo on every run; PANIC and HANG (watchdog) are observables.',
         ['oracle record answers as Go stdlib (served by the Go helper, sampled by the run)', 'Go runtime stack exhaustion beyond ~10^5 nesting is outside the model']),
     'C02': P(
-        ['C02_string_value_stays_in_its_literal', 'C02_field_name_is_one_identifier', 'C02_fragment_sql_is_one_confined_expression', 'C02_rendered_fragment_sql_is_one_confined_expression'],
+        ['C02_string_value_stays_in_its_literal', 'C02_field_name_is_one_identifier', 'C02_fragment_sql_is_one_confined_expression', 'C02_rendered_fragment_sql_is_one_confined_expression', 'C02_fragment_columns_and_constants_come_from_the_query'],
         [('corpus', 0), ('rand', 5000), ('quote', 2500), ('inject', 2500), ('scale-list', 0), ('scale-names', 0), ('scale-values', 0), ('scale-digits', 0)],
         [('corpus', 0), ('rand', 60000), ('quote', 30000), ('inject', 30000), ('enum', 5000), ('scale-list', 0), ('scale-names', 0), ('scale-values', 0), ('scale-digits', 0)],
         PARSE + SQL + ['SqlToks'],
-        'partial: proved at scanner level (a string value is read back by the PostgreSQL scanner model as one constant equal to the value, for all byte strings; a field name as one quoted identifier) and at grammar level for the filterable fragment (for every tree of the fragment, any depth: the token sequence of its SQL - Spec/SqlFrag.tr, compared per case with the scanner model on the implementation text - is accepted by the PostgreSQL expression grammar as one expression built from allowed constructs only; and end to end: whenever the model Render returns a text for such a tree, scanner and grammar model read it as that one expression). Outside the fragment (floats, string ranges, regular expressions, parameterized text) and for column/constant provenance the clause is decided by running the PostgreSQL model (coq/Model/PgModel.v, extracted) on every SQL text the implementation returns.',
+        'partial: proved at scanner level (a string value is read back by the PostgreSQL scanner model as one constant equal to the value, for all byte strings; a field name as one quoted identifier) and at grammar level for the filterable fragment (for every tree of the fragment, any depth: the token sequence of its SQL - Spec/SqlFrag.tr, compared per case with the scanner model on the implementation text - is accepted by the PostgreSQL expression grammar as one expression built from allowed constructs only; and end to end: whenever the model Render returns a text for such a tree, scanner and grammar model read it as that one expression, whose column references are field names of the query and whose string constants are string values of the query). Outside the fragment (floats, string ranges, regular expressions, parameterized text) and for column/constant provenance the clause is decided by running the PostgreSQL model (coq/Model/PgModel.v, extracted) on every SQL text the implementation returns.',
         'every SQL text ToPostgres/ToParameterizedPostgres returns on generated queries (hostile field names and values: quotes, backslashes, semicolons, comment openers, NUL, invalid UTF-8, NaN/Inf, >63-byte names); non-trivial = rendering succeeded and the text was read by the PostgreSQL model',
         'C02_check: pg_read(sql) must succeed, be built from allowed nodes only, every column must be a field/default field of the query and every string constant a (translated) value of the query.',
         ['PgModel is a conservative model of scan.l/gram.y validated one-directionally against pg_query in design; not re-validated at run time']),
